@@ -171,6 +171,17 @@ def main(tier_: str) -> int:
                     man['start'] = canon(proj['availabilityStartTime'])
                 if proj['timeShiftBufferDepth'] is not None:
                     man['depth'] = canon(proj['timeShiftBufferDepth'] // 10**6)
+                # another client's manifest request, with other values for the same options, lands between this manifest and
+                # its media requests: what a media URL means must not depend on what the process served in between
+                other = {k: next((x for x in VALUES.get(k, []) if x != v), None) for k, v in vec.items()}
+                dq = '&'.join(f'{k}={quote(v, safe="")}' for k, v in other.items() if v is not None)
+                if dq:
+                    if any(k.startswith(('playready__', 'clearkey__', 'marlin__')) for k in other) and 'drm' not in other:
+                        dq += '&drm=all'
+                    for ev in ('ping', 'scte35'):
+                        if any(k.startswith(ev + '__') for k in other) and 'events' not in other:
+                            dq += f'&events={ev}'
+                    c.get(f'/dash/{mode}/bbb/{tmpl}?{dq}')
                 for adp in proj['periods'][0]['adaptation_sets']:
                     m = adp['contentType']
                     if not adp['representations']:
